@@ -7,6 +7,8 @@ PROP = dict(
              coverage=True, coverage_ignore=["NestedLine"],  # nested blocks are explored by SetupGrammarSim
              timeout=dict(quick=300, thorough=1500)),
         # longer shapes (several lines, nested blocks) by seeded simulation
+        # two directives of one site sharing a log file (the verdict on one depends on the other)
+        dict(module="SetupPairs", cfg="SetupPairs.cfg", emit=True, workers=2, timeout=dict(quick=120, thorough=120)),
         dict(module="SetupGrammarSim", cfg="SetupGrammarSim.cfg", emit=True, workers=4,
              simulate=dict(quick=dict(num=1500, depth=30), thorough=dict(num=25000, depth=30)), timeout=dict(quick=300, thorough=900)),
     ],
